@@ -22,6 +22,22 @@ from . import seams
 from .core import HarnessError, Sim
 
 
+# > 0 while a simulated pool dispatches work from inside a simulated thread: the pool stand-in swaps whole process
+# images in and out of the interpreter, so the thread that does it is not parked until it is done (less interleaving
+# explored there, never a wrong one)
+NO_PREEMPT = 0
+
+
+class no_preempt:
+    def __enter__(self):
+        global NO_PREEMPT
+        NO_PREEMPT += 1
+
+    def __exit__(self, *exc):
+        global NO_PREEMPT
+        NO_PREEMPT -= 1
+
+
 class _Task:
     def __init__(self, idx: int, thunk: Callable[[], Any]) -> None:
         self.idx, self.thunk = idx, thunk
@@ -75,8 +91,8 @@ class Interleaver:
         self.countdown -= 1
         if self.countdown > 0:
             return
-        if self._importing.get(threading.get_ident()):
-            self.countdown = 1  # try again at the first line after the import
+        if self._importing.get(threading.get_ident()) or NO_PREEMPT:
+            self.countdown = 1  # try again at the first line after the import / the pool dispatch
             return
         others = [x for x in self.tasks if not x.done and x is not t]
         self.countdown = self._draw_interval()
